@@ -744,7 +744,7 @@ def gen_src(unit_name):
     return run_src
 
 
-GEN_SRC = {n: gen_src(n) for n in ("SrcKmpLps", "SrcShiftAndMasks", "SrcHorspoolNew", "SrcFenwick")}
+GEN_SRC = {n: gen_src(n) for n in ("SrcKmpLps", "SrcShiftAndMasks", "SrcHorspoolNew", "SrcFenwick", "SrcBitEnc")}
 
 
 # ------------------------------------------------------------------------------------------ theorem modules built here
@@ -795,7 +795,7 @@ EXTRACTORS = {
     "C04": [gen_occ],
     # translated function bodies (tools/rs2lean.py); Thm/C08.lean imports RbV.Thm.GenSrc* and restates the theorems
     "C08": [GEN_SRC["SrcKmpLps"], GEN_SRC["SrcShiftAndMasks"], GEN_SRC["SrcHorspoolNew"]],
-    "C18": [GEN_SRC["SrcFenwick"]],
+    "C18": [GEN_SRC["SrcFenwick"], GEN_SRC["SrcBitEnc"]],
 }
 
 
